@@ -17,6 +17,8 @@ import vlib
 def run(ctx):
     quick = ctx.tier == "quick"
     r = ctx.tlc_ok("ClientFault", "ClientFault_mc.cfg", timeout=600)
+    # the same design with a caller that never closes the client: a stall inside a response still ends
+    ctx.tlc_ok("ClientFault", "ClientFault_noclose.cfg", timeout=600)
     binp = ctx.build("clientfault")
     tr = os.path.join(ctx.scratch, "fault.ndjson")
     recs, _, _ = ctx.harness(binp, ["run", tr, "-stride", 3 if quick else 1, "-seed", ctx.seed], timeout=2400)
@@ -61,8 +63,10 @@ def run(ctx):
     else:
         ctx.mismatch("trace-rejected", "ClientFaultTrace rejects a recorded run at record %s: %s" % (at, str(rec)[:800]),
                      {"kind": "trace", "prefix": vlib.trace_prefix(tr2, at, '"Run"')})
-    ctx.assumptions += ["deadlines are virtual: a read that would block while the client has a deadline armed fails at once; "
-                        "where the client has no deadline (between responses) the caller calls Close after 40 ms",
+    ctx.assumptions += ["deadlines are virtual: once the connection has stalled and the client has come to rest (its reader blocked "
+                        "in Read, the deadline untouched for 0.4 ms) the clock jumps past every timeout: a read blocked with a "
+                        "deadline armed fails; where the client has no deadline (between responses) the caller calls Close 40 ms later; "
+                        "a stall inside a response must end without that Close (waited for up to 2 s)",
                         "'does not return' = 4 s of wall time", "STARTTLS transcripts are not part of the corpus (C17 covers the upgrade)"]
     ctx.finish(rule="run = (session script, byte offset of the server's reply stream, fault kind); non-trivial = at least two calls "
                "returned before the end of the run; all (script, offset, fault) triples are distinct",
